@@ -40,6 +40,7 @@ type Encoder struct {
 	noRead      []noReadLoc                  // read frame of the function under contract
 	defs        map[string]string            // defined name -> term (for store-to-load forwarding)
 	parts       map[string][]string          // constructor term -> field terms
+	cellBlk     map[string]*ssa.BasicBlock // private cell ref -> top-frame block it was allocated in
 	localCells  map[string][]string          // cell component -> refs of private local-variable cells
 	inLoopHavoc bool
 	cellAlloc   map[string]*ssa.Alloc // ref term of a private local cell -> its Alloc
@@ -222,11 +223,23 @@ func (e *Encoder) havocComp(st *State, name string) {
 	if refs := e.localCells[name]; len(refs) > 0 && !e.inLoopHavoc {
 		t := nv
 		for _, r := range refs {
-			t = store(t, r, sel(old, r))
+			if e.cellLive(r) {
+				t = store(t, r, sel(old, r))
+			}
 		}
 		nv = e.define(name, e.compSort[name], t)
 	}
 	st.heap[name] = nv
+}
+
+// cellLive: the private cell r was allocated on a path that reaches the current block (a cell allocated on another
+// branch does not exist here, and its declaration is sliced out of this block's queries).
+func (e *Encoder) cellLive(r string) bool {
+	b, ok := e.cellBlk[r]
+	if !ok || b == nil || e.curBlk == nil {
+		return !ok || b == nil
+	}
+	return e.ancestorsOf(e.curBlk)[b]
 }
 
 func arrSort(elem string) string  { return "(Array Int " + elem + ")" }
